@@ -41,6 +41,9 @@ func Map[K comparable, V any](orig map[K]V) map[K]V {
 }
 
 func OrderedMap[K comparable, V any](orig *orderedmap.OrderedMap[K, V]) *orderedmap.OrderedMap[K, V] {
+	if orig == nil {
+		return nil
+	}
 	if orig.Len() == 0 {
 		return orderedmap.NewOrderedMap[K, V]()
 	}
